@@ -7,6 +7,7 @@ mod monitors2;
 mod monitors3;
 mod script2;
 mod genstats;
+mod fuzz;
 mod refmodel;
 mod analysis;
 mod profiles;
